@@ -231,7 +231,7 @@ impl Property for C20 {
         let many = rng.chance(1, 120);
         if many {
             // scale: more than 255 / 256 package directories
-            let k = *rng.pick(&[257usize, 300, 300, 1100]);
+            let k = *rng.pick(&[257usize, 258, 300, 520, 700]);
             for i in 0..k {
                 names.push(format!("pkg{}-1.{}nb{}", i, i % 50, i % 3).into_bytes());
             }
